@@ -120,18 +120,25 @@ RefReplay RefLedger::Replay(const uint256& tip, bool keep_snapshots) const
 {
     RefReplay r;
     const CAmount MAXM = 2100000000000000LL;
-    auto fail = [&](const std::string& why, const uint256& blk) { r.ok = false; r.why = why; r.bad_block = blk; };
+    RefUtxo& u = r.utxo; // modified in place; a per-block undo log restores it if the block turns out invalid
+    std::vector<std::pair<COutPoint, std::optional<RefCoin>>> undo;
+    auto fail = [&](const std::string& why, const uint256& blk) {
+        r.ok = false; r.why = why; r.bad_block = blk;
+        for (auto it = undo.rbegin(); it != undo.rend(); ++it) { if (it->second) u[it->first] = *it->second; else u.erase(it->first); }
+        r.total = 0;
+        for (auto& [k, c] : u) r.total += c.value;
+    };
     for (const uint256& bh : Path(tip)) {
         const RefBlock& b = blocks.at(bh);
         if (b.height == 0) { if (keep_snapshots) r.utxo_at[bh] = r.utxo; continue; } // genesis coinbase is not in the UTXO set
-        RefUtxo u = r.utxo;
+        undo.clear();
         __int128 fees = 0;
         if (b.vtx.empty()) { fail("no-coinbase", bh); return r; }
         // BIP30-style rule: no transaction may overwrite an existing unspent output (checked against the pre-block set)
         if (enforce_bip30) {
             for (const auto& tx : b.vtx) {
                 for (uint32_t o = 0; o < tx->vout.size(); ++o) {
-                    if (r.utxo.count(COutPoint(tx->GetHash(), o))) { fail("bip30-overwrite", bh); return r; }
+                    if (u.count(COutPoint(tx->GetHash(), o))) { fail("bip30-overwrite", bh); return r; }
                 }
             }
         }
@@ -152,6 +159,7 @@ RefReplay RefLedger::Replay(const uint256& tip, bool keep_snapshots) const
                     if (it->second.coinbase && b.height - it->second.height < coinbase_maturity) { fail("immature-coinbase-spend", bh); return r; }
                     in += it->second.value;
                     if (in > MAXM) { fail("value-out-of-range", bh); return r; }
+                    undo.emplace_back(it->first, it->second);
                     u.erase(it);
                 }
                 if (in < out) { fail("in-below-out", bh); return r; }
@@ -160,7 +168,10 @@ RefReplay RefLedger::Replay(const uint256& tip, bool keep_snapshots) const
             }
             for (uint32_t o = 0; o < tx.vout.size(); ++o) {
                 if (ModelUnspendable(tx.vout[o].scriptPubKey)) continue;
-                u[COutPoint(tx.GetHash(), o)] = RefCoin{tx.vout[o].nValue, tx.vout[o].scriptPubKey, b.height, ti == 0};
+                COutPoint op(tx.GetHash(), o);
+                auto it = u.find(op);
+                undo.emplace_back(op, it == u.end() ? std::nullopt : std::optional<RefCoin>(it->second));
+                u[op] = RefCoin{tx.vout[o].nValue, tx.vout[o].scriptPubKey, b.height, ti == 0};
             }
         }
         __int128 cbout = 0;
@@ -169,7 +180,6 @@ RefReplay RefLedger::Replay(const uint256& tip, bool keep_snapshots) const
         if (cbout > fees + sub) { fail("coinbase-overpays", bh); return r; }
         r.fees[bh] = CAmount(fees);
         r.subsidy_sum += sub;
-        r.utxo = std::move(u);
         if (keep_snapshots) r.utxo_at[bh] = r.utxo;
     }
     r.total = 0;
@@ -314,6 +324,7 @@ ChainSim::ChainSim(ChainSimOpts opts)
             .memory_only = opts.block_tree_db_in_memory,
         },
     };
+    if (opts.before_load) opts.before_load(m_args.GetDataDirNet());
     m_node.chainman = std::make_unique<ChainstateManager>(*Assert(m_node.shutdown_signal), chainman_opts, blockman_opts);
 
     auto& chainman{*m_node.chainman};
@@ -321,14 +332,29 @@ ChainSim::ChainSim(ChainSimOpts opts)
     options.mempool = m_node.mempool.get();
     options.coins_db_in_memory = opts.coins_db_in_memory;
     options.prune = chainman.m_blockman.IsPruneMode();
-    auto [status, err] = node::LoadChainstate(chainman, cache_sizes, options);
-    assert(status == node::ChainstateLoadStatus::SUCCESS);
-    std::tie(status, err) = node::VerifyLoadedChainstate(chainman, options);
-    assert(status == node::ChainstateLoadStatus::SUCCESS);
-    m_node.notifications->setChainstateLoaded(true);
-    BlockValidationState state;
-    bool abc = chainman.ActiveChainstate().ActivateBestChain(state);
-    assert(abc);
+    options.check_blocks = opts.check_blocks;
+    options.check_level = opts.check_level;
+    try {
+        auto [status, err] = node::LoadChainstate(chainman, cache_sizes, options);
+        if (status != node::ChainstateLoadStatus::SUCCESS) { load_ok = false; load_stage = "load"; load_error = err.original; }
+        if (load_ok) {
+            std::tie(status, err) = node::VerifyLoadedChainstate(chainman, options);
+            if (status != node::ChainstateLoadStatus::SUCCESS) { load_ok = false; load_stage = "verify"; load_error = err.original; }
+        }
+        if (load_ok) {
+            m_node.notifications->setChainstateLoaded(true);
+            if (opts.activate_on_load) {
+                BlockValidationState state;
+                if (!chainman.ActiveChainstate().ActivateBestChain(state)) { load_ok = false; load_stage = "activate"; load_error = state.ToString(); }
+            }
+        }
+    } catch (const std::exception& e) {
+        load_ok = false; load_stage = "exception"; load_error = e.what();
+    }
+    if (opts.assert_load && !load_ok) {
+        fprintf(stderr, "ChainSim: chainstate load failed at stage %s: %s\n", load_stage.c_str(), load_error.c_str());
+        assert(load_ok);
+    }
 
     catcher = std::make_shared<VerdictCatcher>();
     m_node.validation_signals->RegisterSharedValidationInterface(catcher);
